@@ -199,6 +199,7 @@ type evmSim struct {
 	rcptErr       map[int]bool
 	rcptErrA      bool
 	bbhErr        map[int]bool
+	bbhHold       map[int]chan struct{} // block-time lookups the node answers only when the script says so
 	pollFail      int
 	pollFailAll   bool
 	finalizedMode bool // the watcher is configured for a chain read at finalized height
@@ -227,7 +228,7 @@ type evmSim struct {
 }
 
 func newEvmSim(head uint64) *evmSim {
-	return &evmSim{head: head, headHash: hID(kindHead, head), rcpts: map[int]*simRcpt{}, rcptErr: map[int]bool{}, bbhErr: map[int]bool{},
+	return &evmSim{head: head, headHash: hID(kindHead, head), rcpts: map[int]*simRcpt{}, rcptErr: map[int]bool{}, bbhErr: map[int]bool{}, bbhHold: map[int]chan struct{}{},
 		bumpOnRcpt: map[int]uint64{}, subReady: make(chan struct{}), bbhCalls: map[ethcommon.Hash]int{}, numStrs: map[string]int{}, notes: map[string]int{}, txNotes: map[string]int{}}
 }
 
@@ -272,8 +273,22 @@ func (s *evmSim) BlockNumber(ctx context.Context) (hexutil.Uint64, error) {
 
 func (s *evmSim) GetBlockByHash(ctx context.Context, h ethcommon.Hash, full bool) (*types.Header, error) {
 	s.mu.Lock()
-	defer s.mu.Unlock()
 	s.bbhCalls[h]++
+	var hold chan struct{}
+	if hKind(h) == kindBlock {
+		hold = s.bbhHold[hNum(h)]
+	}
+	s.mu.Unlock()
+	if hold != nil {
+		// the node is slow to answer this block-time lookup: the script decides when (the watcher's other goroutines go on meanwhile)
+		select {
+		case <-hold:
+		case <-ctx.Done():
+			return nil, ctx.Err()
+		}
+	}
+	s.mu.Lock()
+	defer s.mu.Unlock()
 	if hKind(h) == kindBlock && s.bbhErr[hNum(h)] {
 		return nil, errInjected
 	}
